@@ -105,6 +105,11 @@ def check_loss(ctx, key, g, tmap, ncalls):
         if ref.min() < 0 or ref.max() >= V:
             continue
         w = torch.tensor([[[rng.choice((1, 2, 3, 4, 6)) for _ in range(V)] for _ in range(N)] for _ in range(H)], dtype=torch.double)
+        # a class the model rules out (weight 0, logit -inf) that is no target of any prefix: the loss stays finite
+        all_targets = set(t for r in rows for st in expected_sets(r, tmap, True) for t in st)
+        dead = [z for z in range(V) if z not in all_targets]
+        if dead and rng.random() < 0.5:
+            w[..., 0 if 0 in dead else rng.choice(dead)] = 0.0
         logits = w.log() + torch.tensor(rng.choice((0.0, 1.25)), dtype=torch.double)
         logp = (w / w.sum(-1, keepdim=True)).log()
         # expected per (k, n): - mean over targets of logp
@@ -157,7 +162,11 @@ def run(ctx):
                 "batch_first x exclude_last x padding, one batch per shape and seeded small batches; hard OCD loss on "
                 "seeded batches with integer-weight logits; non-trivial = some prefix has >= 2 targets or a target set "
                 "that differs from the next reference token alone; distinct by (mode, costs, ref row, hyp row)")
-    ctx.assumptions += ["dyadic costs", "R,H >= 1", "empty hypothesis x exclude_last excluded (as the property says)"]
+    ctx.assumptions += ["dyadic costs; equal costs also times 0.1 / 0.3 / 0.7 (the library factors the common cost out, so the "
+                        "targets are those of unit costs)", "R,H >= 1", "empty hypothesis x exclude_last excluded (as the property says)",
+                        "long strings are chosen by the harness (seeded); their oracle is the specification's row machine, checked "
+                        "against the declarative completion sets on the exhaustive universe of short rows only",
+                        "loss: integer-weight logits, in half of the calls one class that is no target anywhere has weight 0 (logit -inf)"]
     recs = _ed.run_design(ctx, {"core", "decl"})
     groups = _ed.group_records(recs)
     ctx.exhaustive = True
@@ -175,6 +184,22 @@ def run(ctx):
         for idxs in _ed.sub_batches(ctx.rng, len(g), 6 if ctx.quick else 40):
             check_group(ctx, key, [g[i] for i in idxs], _ed.TOKEN_MAPS[ti], 1.0, LIGHT, "small")
         check_loss(ctx, key, g, _ed.TOKEN_MAPS[ti if _ed.TOKEN_MAPS[ti][0] >= 0 else 0], 2 if ctx.quick else 10)
+        ctx.traces += len(g)
+    # LONG strings (harness-chosen, the specification's row machine is the oracle): 6..12 symbols over three tokens and
+    # eos, short content padded beyond 256 symbols; equal costs also times non-dyadic factors (same targets: the library
+    # factors the common cost out)
+    lgroups = _ed.group_records(_ed.run_long(ctx))
+    for n, key in enumerate(sorted(lgroups)):
+        g = lgroups[key]
+        c = key[1]
+        for r in g:
+            nt = any(len(o["next"]) >= 2 for o in r["out"][: r["hyplen"] + 1])
+            ctx.case(key=("long", key[0], c, tuple(r["ref"]), tuple(r["hyp"])), nontrivial=nt, n=0)
+        scales = [1.0] + (_ed.NONDYADIC if c[0] == c[1] == c[2] else [0.5])
+        for si, scale in enumerate(scales):
+            check_group(ctx, key, g, _ed.TOKEN_MAPS[(n + si) % len(_ed.TOKEN_MAPS)], scale, LIGHT, "long")
+        if key[3] <= 12:
+            check_loss(ctx, key, g, _ed.TOKEN_MAPS[0], 1)
         ctx.traces += len(g)
     if not ctx.samples:
         r = recs[len(recs) // 2]
